@@ -3289,10 +3289,13 @@ static Token *global_variable(Token *tok, Type *basety, VarAttr *attr) {
     if (attr->align)
       var->align = attr->align;
 
-    if (equal(tok, "="))
+    if (equal(tok, "=")) {
+      // A declaration with an initializer is a definition even if "extern".
+      var->is_definition = true;
       gvar_initializer(&tok, tok->next, var);
-    else if (!attr->is_extern && !attr->is_tls)
+    } else if (!attr->is_extern && !attr->is_tls) {
       var->is_tentative = true;
+    }
   }
   return tok;
 }
